@@ -300,6 +300,16 @@ def run_real(case, timeout: float = 30.0) -> dict[str, Any]:
                 b = ft["CSVTracksBuilder"]()
                 b.read_header(path)
                 b.node_name_map = nm
+                if case.get("reused_builder"):
+                    # batch import: the same builder (header read once, key map set once) has built
+                    # ANOTHER file with the same columns before
+                    decoy = Path(tmp) / "earlier.csv"
+                    written.iloc[:max(1, len(written) // 2)].to_csv(decoy, index=False)
+                    try:
+                        b.build(decoy)
+                    except Exception:  # noqa: BLE001  (the earlier file need not be importable)
+                        pass
+                    b.node_name_map = {k: (list(v) if isinstance(v, list) else v) for k, v in nm.items()}
                 tracks = b.build(path)
             else:
                 tmp = tempfile.mkdtemp(prefix="ft_im_", dir="/tmp")
@@ -946,6 +956,8 @@ def gen_table(rng: random.Random, kind: str, intensify: bool = False) -> dict:
             case["index"] = [rng.randrange(max(1, n // 2)) for _ in range(n)]
     if kind == "df" and rng.random() < 0.1:
         case["deprecated_param"] = True
+    if kind == "csv" and n >= 2 and rng.random() < 0.3:
+        case["reused_builder"] = True
     case["_tags"] = {"ids": id_kind, "enc": enc, "renamed_ids": renamed_ids, "nd": nd, "n": n,
                      "index": "default" if "index" not in case else "custom",
                      "links": sum(1 for p in parent if p is not None),
